@@ -1,5 +1,6 @@
 (** Proofs about the help/usage model (C12). *)
-From ClapModel Require Import Base.Bytes Base.Machine Parse.Cmd Gen.HelpTables Help.UsageModel Help.HelpModel.
+From ClapModel Require Import Base.Bytes Base.Machine Parse.Cmd Parse.Matcher Parse.Errors Parse.Validator ParseProofs.Relations.
+From ClapModel Require Import Gen.HelpTables Help.UsageModel Help.HelpModel Help.HelpReqs.
 From Coq Require Import Lia.
 From RecordUpdate Require Import RecordSet.
 Import RecordSetNotations.
@@ -355,6 +356,15 @@ Proof.
   unfold flatset_insert. destruct (existsb _ l); intros H; [right; exact H|].
   apply in_app_or in H. destruct H as [H|[H|[]]]; [right; exact H|left; symmetry; exact H].
 Qed.
+Lemma flatset_insert_keeps x y l : In x l -> In x (flatset_insert y l).
+Proof. unfold flatset_insert. destruct (existsb _ l); intros H; [exact H|apply in_or_app; left; exact H]. Qed.
+(** the text of an inserted element is in the set afterwards (under its own id or an earlier one) *)
+Lemma flatset_insert_text y l : In (snd y) (map snd (flatset_insert y l)).
+Proof.
+  unfold flatset_insert. destruct (existsb (fun z => beq (snd z) (snd y)) l) eqn:E.
+  - apply existsb_exists in E. destruct E as [z [Hz Ez]]. apply beq_eq in Ez. rewrite <- Ez. apply in_map. exact Hz.
+  - rewrite map_app. apply in_or_app. right. left. reflexivity.
+Qed.
 Lemma vec_set_in {A} n (v : A) l x : In x (vec_flatten (vec_set n v l)) -> x = v \/ In x (vec_flatten l).
 Proof.
   revert l. induction n as [|n IH]; intros l H; destruct l as [|[y|] t]; cbn [vec_set vec_flatten] in *.
@@ -365,6 +375,16 @@ Proof.
   - destruct H as [H|H]; [right; left; exact H|]. apply IH in H. destruct H; [left|right; right]; assumption.
   - apply IH in H. exact H.
 Qed.
+Lemma vec_clear_in {A} n (l : list (option A)) x : In x (vec_flatten (vec_clear n l)) -> In x (vec_flatten l).
+Proof.
+  revert l. induction n as [|n IH]; intros l H; destruct l as [|[y|] t]; cbn [vec_clear vec_flatten] in *.
+  - exact H.
+  - right. exact H.
+  - exact H.
+  - exact H.
+  - destruct H as [H|H]; [left; exact H|right; apply IH; exact H].
+  - apply IH. exact H.
+Qed.
 Lemma vec_get_in {A} n (l : list (option A)) x : vec_get n l = Some x -> In x (vec_flatten l).
 Proof.
   unfold vec_get. revert l. induction n as [|n IH]; intros l H; destruct l as [|[y|] t]; cbn [nth vec_flatten] in *;
@@ -374,70 +394,205 @@ Proof.
   - apply IH. exact H.
 Qed.
 
-(** where a usage piece may come from: a required argument, or a positional that is not [hide]n *)
-Definition usage_src (c : hcmd) (i : bytes) : Prop :=
-  exists a, In a (hc_args c) /\ ha_id a = i /\ (ha_required a = true \/ (ha_is_positional a = true /\ ha_hide a = false)).
+Definition args_ok (c : hcmd) : Prop := forall a, In a (hc_args c) -> arg_ok a = true.
 
-Lemma req_split_spec c reqs : forall opts poss,
-  (forall a, In a reqs -> arg_ok a = true /\ In a (hc_args c) /\ ha_required a = true) ->
-  (forall x, In x opts -> usage_src c (fst x)) -> (forall x, In x (vec_flatten poss) -> usage_src c (fst x)) ->
-  exists r, req_split reqs opts poss = Some r /\ (forall x, In x (fst r) -> usage_src c (fst x))
-            /\ (forall x, In x (vec_flatten (snd r)) -> usage_src c (fst x)).
+(** the members of the groups the usage line lists *)
+Definition usage_members (c : hcmd) : list id :=
+  match req_groups c (usage_reqs c) [] [] with Some gm => snd gm | None => [] end.
+
+(** where a usage piece may come from: an argument among the requirements that is not a member of a
+    listed group, a positional that is not [hide]n (and not such a member), or a group among the
+    requirements (then the text is [format_group]) *)
+Definition usage_src (c : hcmd) (x : bytes * bytes) : Prop :=
+  (exists a, In a (hc_args c) /\ ha_id a = fst x /\ mem_id (fst x) (usage_members c) = false
+             /\ (In (fst x) (usage_reqs c) \/ (ha_is_positional a = true /\ ha_hide a = false)))
+  \/ (is_some (find_group (pcmd_of c) (fst x)) = true /\ In (fst x) (usage_reqs c)
+      /\ format_group c (fst x) = Some (snd x)).
+
+Lemma format_group_some c grp :
+  args_ok c -> rel_wf (pcmd_of c) = true -> In grp (hc_groups c) -> exists s, format_group c (g_id grp) = Some s.
 Proof.
-  induction reqs as [|a t IH]; intros opts poss Hr Ho Hp; cbn [req_split].
-  - eexists. split; [reflexivity|]. split; assumption.
-  - destruct (Hr a (or_introl eq_refl)) as [Hok [Hin Hreq]].
-    destruct (stylized_some a (Some true) Hok) as [s Hs]. rewrite Hs.
-    assert (Hsrc : usage_src c (ha_id a)) by (exists a; repeat split; auto).
-    destruct (ha_index a) as [i|].
-    + apply IH; [intros b Hb; apply Hr; right; exact Hb|exact Ho|].
-      intros x Hx. apply vec_set_in in Hx. destruct Hx as [Hx|Hx]; [subst; exact Hsrc|apply Hp; exact Hx].
-    + apply IH; [intros b Hb; apply Hr; right; exact Hb| |exact Hp].
-      intros x Hx. apply flatset_insert_in in Hx. destruct Hx as [Hx|Hx]; [subst; exact Hsrc|apply Ho; exact Hx].
+  intros Hok W Hg. unfold format_group.
+  destruct (unroll_args_in_group_total (pcmd_of c) grp W Hg) as [m Hm]. rewrite Hm.
+  destruct (map_opt_some (fun x => if ha_is_positional x then Some (name_no_brackets x) else arg_to_string x)
+                         (filter_map (h_find c) m)) as [parts Hp].
+  { intros x Hx. apply filter_map_inv in Hx. destruct Hx as [i [_ Hf]]. apply h_find_some in Hf.
+    destruct (ha_is_positional x); [eauto|]. unfold arg_to_string. apply stylized_some. apply Hok. apply Hf. }
+  rewrite Hp. eauto.
 Qed.
 
-Lemma usage_positionals_spec c ps : forall poss,
-  (forall a, In a ps -> arg_ok a = true /\ In a (hc_args c) /\ ha_is_positional a = true) ->
-  (forall x, In x (vec_flatten poss) -> usage_src c (fst x)) ->
-  exists r, usage_positionals ps poss = Some r /\ (forall x, In x (vec_flatten r) -> usage_src c (fst x)).
+(** the groups loop *)
+Lemma req_groups_spec c reqs : forall groups members,
+  args_ok c -> rel_wf (pcmd_of c) = true -> (forall x, In x reqs -> id_exists (pcmd_of c) x = true) ->
+  exists r, req_groups c reqs groups members = Some r
+    /\ (forall x, In x (fst r) -> In x groups \/ (is_some (find_group (pcmd_of c) (fst x)) = true /\ In (fst x) reqs
+                                                    /\ format_group c (fst x) = Some (snd x)))
+    /\ (forall t, In t (map snd groups) -> In t (map snd (fst r)))
+    /\ (forall m, In m (snd r) -> In m members \/
+          exists g gm txt, In g reqs /\ unroll_args_in_group (pcmd_of c) g = Some gm /\ In m gm
+                           /\ format_group c g = Some txt /\ In txt (map snd (fst r)))
+    /\ (forall m, In m members -> In m (snd r))
+    /\ (forall g gm, In g reqs -> is_some (find_group (pcmd_of c) g) = true ->
+          unroll_args_in_group (pcmd_of c) g = Some gm -> forall m, In m gm -> In m (snd r)).
 Proof.
-  induction ps as [|a t IH]; intros poss Hps Hp; cbn [usage_positionals].
+  induction reqs as [|req t IH]; intros groups members Hok W Hex; cbn [req_groups].
+  - eexists. split; [reflexivity|]. cbn [fst snd]. repeat split; auto. intros g gm [].
+  - assert (Ht : forall x, In x t -> id_exists (pcmd_of c) x = true) by (intros x Hx; apply Hex; right; exact Hx).
+    destruct (find_group (pcmd_of c) req) as [grp|] eqn:Eg; cbn [is_some].
+    + destruct (find_group_id _ _ _ Eg) as [Hid Hin]. rewrite pcmd_groups in Hin.
+      destruct (unroll_args_in_group_total (pcmd_of c) grp W Hin) as [gm Hgm]. rewrite Hid in Hgm. rewrite Hgm.
+      destruct (format_group_some c grp Hok W Hin) as [txt Htxt]. rewrite Hid in Htxt. rewrite Htxt.
+      destruct (IH (flatset_insert (req, txt) groups) (idset_extend gm members) Hok W Ht) as [r [Hr [R1 [R2 [R3 [R4 R5]]]]]].
+      exists r. split; [exact Hr|].
+      assert (Hext : forall m, In m members \/ In m gm -> In m (idset_extend gm members)).
+      { clear. unfold idset_extend. revert members. induction gm as [|x u IHu]; intros members m Hm; cbn [fold_left].
+        - destruct Hm as [Hm|[]]. exact Hm.
+        - apply IHu. destruct Hm as [Hm|[Hm|Hm]].
+          + left. destruct (mem_id x members); [exact Hm|apply in_or_app; left; exact Hm].
+          + subst x. left. destruct (mem_id m members) eqn:E; [apply mem_id_In; exact E|apply in_or_app; right; left; reflexivity].
+          + right. exact Hm. }
+      assert (Hext2 : forall m, In m (idset_extend gm members) -> In m members \/ In m gm).
+      { clear. unfold idset_extend. revert members. induction gm as [|x u IHu]; intros members m Hm; cbn [fold_left] in Hm.
+        - left. exact Hm.
+        - apply IHu in Hm. destruct Hm as [Hm|Hm]; [|right; right; exact Hm].
+          destruct (mem_id x members); [left; exact Hm|]. apply in_app_or in Hm. destruct Hm as [Hm|[Hm|[]]]; [left; exact Hm|right; left; exact Hm]. }
+      split; [|split; [|split; [|split]]].
+      * intros x Hx. destruct (R1 x Hx) as [H|[H1 [H2 H3]]].
+        -- apply flatset_insert_in in H. destruct H as [H|H]; [|left; exact H].
+           right. subst x. cbn [fst snd]. rewrite Eg. split; [reflexivity|]. split; [left; reflexivity|exact Htxt].
+        -- right. split; [exact H1|]. split; [right; exact H2|exact H3].
+      * intros tx Htx. apply R2. apply in_map_iff in Htx. destruct Htx as [y [Ey Hy]]. apply in_map_iff. exists y.
+        split; [exact Ey|apply flatset_insert_keeps; exact Hy].
+      * intros m Hm. destruct (R3 m Hm) as [H|[g [gm' [tx [H1 H2]]]]].
+        -- apply Hext2 in H. destruct H as [H|H]; [left; exact H|].
+           right. exists req, gm, txt. split; [left; reflexivity|]. split; [exact Hgm|]. split; [exact H|]. split; [exact Htxt|].
+           apply R2. apply (flatset_insert_text (req, txt)).
+        -- right. exists g, gm', tx. split; [right; exact H1|exact H2].
+      * intros m Hm. apply R4. apply Hext. left. exact Hm.
+      * intros g gm' [Hg|Hg] Hfg Hu m Hm.
+        -- subst g. rewrite Hgm in Hu. inversion Hu; subst gm'. apply R4. apply Hext. right. exact Hm.
+        -- apply (R5 g gm' Hg Hfg Hu m Hm).
+    + pose proof (Hex req (or_introl eq_refl)) as He. unfold id_exists in He. rewrite Eg in He. cbn [is_some] in He.
+      rewrite orb_false_r in He. rewrite find_arg_pcmd_some in He. rewrite He.
+      destruct (IH groups members Hok W Ht) as [r [Hr [R1 [R2 [R3 [R4 R5]]]]]].
+      exists r. split; [exact Hr|]. split; [|split; [|split; [|split]]].
+      * intros x Hx. destruct (R1 x Hx) as [H|[H1 [H2 H3]]]; [left; exact H|right]. split; [exact H1|]. split; [right; exact H2|exact H3].
+      * exact R2.
+      * intros m Hm. destruct (R3 m Hm) as [H|[g [gm' [tx [H1 H2]]]]]; [left; exact H|].
+        right. exists g, gm', tx. split; [right; exact H1|exact H2].
+      * exact R4.
+      * intros g gm' [Hg|Hg] Hfg Hu m Hm; [subst g; rewrite Eg in Hfg; discriminate|apply (R5 g gm' Hg Hfg Hu m Hm)].
+Qed.
+
+(** the arguments loop: [P] is what is known of every piece *)
+Lemma req_split_spec c fo members reqs0 (P : bytes * bytes -> Prop) reqs : forall opts poss,
+  args_ok c -> (forall x, In x reqs -> id_exists (pcmd_of c) x = true /\ In x reqs0) ->
+  (forall a s, In a (hc_args c) -> In (ha_id a) reqs0 -> mem_id (ha_id a) members = false -> P (ha_id a, s)) ->
+  (forall x, In x opts -> P x) -> (forall x, In x (vec_flatten poss) -> P x) ->
+  exists r, req_split c fo members reqs opts poss = Some r /\ (forall x, In x (fst r) -> P x)
+            /\ (forall x, In x (vec_flatten (snd r)) -> P x).
+Proof.
+  induction reqs as [|req t IH]; intros opts poss Hok Hex HP Ho Hp; cbn [req_split].
+  - eexists. split; [reflexivity|]. split; assumption.
+  - assert (Ht : forall x, In x t -> id_exists (pcmd_of c) x = true /\ In x reqs0) by (intros x Hx; apply Hex; right; exact Hx).
+    destruct (Hex req (or_introl eq_refl)) as [He Hin0].
+    destruct (h_find c req) as [a|] eqn:Ea.
+    + destruct (h_find_some _ _ _ Ea) as [Hid Hin].
+      destruct (mem_id (ha_id a) members) eqn:Em; [apply IH; assumption|].
+      destruct (stylized_some a (Some (negb fo)) (Hok a Hin)) as [s Hs]. rewrite Hs.
+      assert (Hsrc : P (ha_id a, s)) by (apply HP; [exact Hin|rewrite Hid; exact Hin0|exact Em]).
+      destruct (ha_index a) as [i|].
+      * apply IH; [exact Hok|exact Ht|exact HP|exact Ho|].
+        intros x Hx. apply vec_set_in in Hx. destruct Hx as [Hx|Hx]; [subst; exact Hsrc|apply Hp; exact Hx].
+      * apply IH; [exact Hok|exact Ht|exact HP| |exact Hp].
+        intros x Hx. apply flatset_insert_in in Hx. destruct Hx as [Hx|Hx]; [subst; exact Hsrc|apply Ho; exact Hx].
+    + unfold id_exists in He. rewrite find_arg_pcmd_some, Ea in He. cbn [is_some orb] in He. rewrite He.
+      apply IH; assumption.
+Qed.
+
+Lemma usage_positionals_spec c fo members (P : bytes * bytes -> Prop) ps : forall poss,
+  (forall a, In a ps -> arg_ok a = true /\ In a (hc_args c) /\ ha_is_positional a = true) ->
+  (forall a s, In a (hc_args c) -> ha_is_positional a = true -> ha_hide a = false -> mem_id (ha_id a) members = false ->
+               P (ha_id a, s)) ->
+  (forall i s s', P (i, s) -> P (i, s')) ->
+  (forall x, In x (vec_flatten poss) -> P x) ->
+  exists r, usage_positionals fo members ps poss = Some r /\ (forall x, In x (vec_flatten r) -> P x).
+Proof.
+  induction ps as [|a t IH]; intros poss Hps HP Hre Hp; cbn [usage_positionals].
   - eexists. split; [reflexivity|exact Hp].
   - destruct (Hps a (or_introl eq_refl)) as [Hok [Hin Hpos]].
     assert (Ht : forall b, In b t -> arg_ok b = true /\ In b (hc_args c) /\ ha_is_positional b = true)
       by (intros b Hb; apply Hps; right; exact Hb).
     destruct (ha_hide a) eqn:Hh; [apply IH; assumption|].
+    destruct (mem_id (ha_id a) members) eqn:Em; [apply IH; assumption|].
     destruct (positional_index a Hok Hpos) as [i Hi]. rewrite Hi.
-    destruct (vec_get (N.to_nat i) poss) as [[pid styled]|] eqn:G.
-    + destruct (ha_last a); [|apply IH; assumption].
-      apply IH; [exact Ht|]. intros x Hx. apply vec_set_in in Hx. destruct Hx as [Hx|Hx]; [|apply Hp; exact Hx].
-      subst x. cbn [fst]. apply (Hp (pid, styled)). apply (vec_get_in _ _ _ G).
-    + destruct (stylized_some a (Some true) Hok) as [s1 Hs1]. destruct (stylized_some a (Some false) Hok) as [s2 Hs2].
-      rewrite Hs1, Hs2.
-      assert (Hsrc : usage_src c (ha_id a)) by (exists a; repeat split; auto).
-      destruct (ha_last a); (apply IH; [exact Ht|]; intros x Hx; apply vec_set_in in Hx;
-        destruct Hx as [Hx|Hx]; [subst x; exact Hsrc|apply Hp; exact Hx]).
+    assert (H1 : exists poss1, match vec_get (N.to_nat i) poss with
+        | Some (pid, styled) => Some (if ha_last a then vec_set (N.to_nat i) (pid, s_dashdash_sp ++ styled) poss else poss)
+        | None => match (if ha_last a then match stylized a (Some true) with Some s => Some ([91] ++ s_dashdash_sp ++ s ++ [93]) | None => None end
+                         else stylized a (Some false)) with
+                  | Some styled => Some (vec_set (N.to_nat i) (ha_id a, styled) poss) | None => None end
+        end = Some poss1 /\ forall x, In x (vec_flatten poss1) -> P x).
+    { destruct (vec_get (N.to_nat i) poss) as [[pid styled]|] eqn:G.
+      - eexists. split; [reflexivity|]. destruct (ha_last a); [|exact Hp].
+        intros x Hx. apply vec_set_in in Hx. destruct Hx as [Hx|Hx]; [|apply Hp; exact Hx].
+        subst x. apply (Hre pid styled). apply Hp. apply (vec_get_in _ _ _ G).
+      - destruct (stylized_some a (Some true) Hok) as [s1 Hs1]. destruct (stylized_some a (Some false) Hok) as [s2 Hs2].
+        rewrite Hs1, Hs2.
+        destruct (ha_last a); (eexists; split; [reflexivity|]; intros x Hx; apply vec_set_in in Hx;
+          destruct Hx as [Hx|Hx]; [subst x; apply HP; assumption|apply Hp; exact Hx]). }
+    destruct H1 as [poss1 [E1 Hp1]]. rewrite E1.
+    apply IH; [exact Ht|exact HP|exact Hre|].
+    destruct (ha_last a && fo); [|exact Hp1]. intros x Hx. apply Hp1. apply (vec_clear_in _ _ _ Hx).
 Qed.
 
-Definition args_ok (c : hcmd) : Prop := forall a, In a (hc_args c) -> arg_ok a = true.
+Lemma usage_members_eq c gm : req_groups c (usage_reqs c) [] [] = Some gm -> usage_members c = snd gm.
+Proof. unfold usage_members. intros ->. reflexivity. Qed.
 
-Lemma usage_arg_items_spec c :
-  args_ok c -> exists items, usage_arg_items c = Some items /\ forall x, In x items -> usage_src c (fst x).
+Lemma usage_arg_items_spec c fo :
+  args_ok c -> refs_ok c = true ->
+  exists items, usage_arg_items c fo = Some items /\ forall x, In x items -> usage_src c x.
 Proof.
-  intros Hok. unfold usage_arg_items.
-  destruct (req_split_spec c (required_args c) [] []) as [sp [Hsp [H1 H2]]].
-  { intros a Ha. unfold required_args in Ha. apply filter_In in Ha. destruct Ha as [Ha Hr]. auto. }
-  { intros x []. } { intros x []. }
+  intros Hok Hrefs. unfold usage_arg_items. rewrite usage_reqs_eq.
+  assert (W : rel_wf (pcmd_of c) = true).
+  { unfold refs_ok in Hrefs. apply andb_true_iff in Hrefs. destruct Hrefs as [H _]. apply andb_true_iff in H. apply H. }
+  assert (Hex : forall x, In x (usage_reqs c) -> id_exists (pcmd_of c) x = true) by (intros x; apply usage_reqs_exist; exact Hrefs).
+  destruct (req_groups_spec c (usage_reqs c) [] [] Hok W Hex) as [gm [Hgm [G1 _]]]. rewrite Hgm.
+  pose proof (usage_members_eq c gm Hgm) as Hmem.
+  set (P := fun x : bytes * bytes =>
+              exists a, In a (hc_args c) /\ ha_id a = fst x /\ mem_id (fst x) (usage_members c) = false
+                        /\ (In (fst x) (usage_reqs c) \/ (ha_is_positional a = true /\ ha_hide a = false))).
+  assert (HPa : forall a s, In a (hc_args c) -> In (ha_id a) (usage_reqs c) -> mem_id (ha_id a) (snd gm) = false -> P (ha_id a, s)).
+  { intros a s Ha Hr Hm. exists a. cbn [fst]. rewrite Hmem.
+    split; [exact Ha|]. split; [reflexivity|]. split; [exact Hm|]. left. exact Hr. }
+  destruct (req_split_spec c fo (snd gm) (usage_reqs c) P (usage_reqs c) [] [] Hok) as [sp [Hsp [S1 S2]]].
+  { intros x Hx. split; [apply Hex; exact Hx|exact Hx]. }
+  { exact HPa. } { intros x []. } { intros x []. }
   rewrite Hsp.
-  destruct (usage_positionals_spec c (filter ha_is_positional (hc_args c)) (snd sp)) as [poss [Hposs H3]].
+  destruct (usage_positionals_spec c fo (snd gm) P (filter ha_is_positional (hc_args c)) (snd sp)) as [poss [Hposs H3]].
   { intros a Ha. apply filter_In in Ha. destruct Ha as [Ha Hp]. auto. }
-  { exact H2. }
+  { intros a s Ha Hp Hh Hm. exists a. cbn [fst]. rewrite Hmem.
+    split; [exact Ha|]. split; [reflexivity|]. split; [exact Hm|]. right. split; assumption. }
+  { intros i s s' [a Ha]. exists a. exact Ha. }
+  { exact S2. }
   rewrite Hposs. eexists. split; [reflexivity|].
-  intros x Hx. apply in_app_or in Hx. destruct Hx as [Hx|Hx]; [apply H1|apply H3]; exact Hx.
+  intros x Hx. apply in_app_or in Hx. destruct Hx as [Hx|Hx]; [|left; apply H3; exact Hx].
+  destruct (negb fo); [|destruct Hx]. apply in_app_or in Hx. destruct Hx as [Hx|Hx]; [left; apply S1; exact Hx|].
+  destruct (G1 x Hx) as [[]|[H1 [H2 H3']]]. right. auto.
+Qed.
+Lemma write_arg_usage_some c incl : args_ok c -> refs_ok c = true -> exists u, write_arg_usage c incl = Some u.
+Proof. intros H R. unfold write_arg_usage. destruct (usage_arg_items_spec c (negb incl) H R) as [it [E _]]. rewrite E. eauto. Qed.
+Lemma args_okb_sound c : forallb arg_ok (hc_args c) = true -> args_ok c.
+Proof. intros H a Ha. rewrite forallb_forall in H. apply H. exact Ha. Qed.
+Lemma usage_pieces_some c : args_ok c -> refs_ok c = true -> exists u, usage_pieces c = Some u.
+Proof.
+  intros H R. unfold usage_pieces. destruct (write_arg_usage_some c true H R) as [u Hu]. rewrite Hu.
+  unfold write_subcommand_usage. destruct (has_visible_subcommands c || hc_allow_external c); [|eauto].
+  destruct (hc_negates_reqs c || hc_args_conflicts c); [|destruct (hc_sub_required c); eauto].
+  destruct (hc_args_conflicts c); [eauto|]. destruct (write_arg_usage_some c false H R) as [v Hv]. rewrite Hv. eauto.
 Qed.
 
-Lemma usage_pieces_some c : args_ok c -> exists u, usage_pieces c = Some u.
-Proof. intros H. unfold usage_pieces. destruct (usage_arg_items_spec c H) as [it [E _]]. rewrite E. eauto. Qed.
+Theorem usage_total c : args_ok c -> refs_ok c = true -> usage_pieces c <> None.
+Proof. intros H R. destruct (usage_pieces_some c H R) as [u E]. rewrite E. discriminate. Qed.
 
 (** ---- sections ---- *)
 Section P3.
@@ -495,7 +650,7 @@ Proof.
   set (pos := filter show (filter (fun a => negb (is_some (ha_heading a))) (filter ha_is_positional (hc_args c)))).
   set (non_pos := filter show (filter (fun a => negb (is_some (ha_heading a))) (filter (fun a => negb (ha_is_positional a)) (hc_args c)))).
   assert (Hs1 : exists s1, (if has_visible_subcommands c
-            then match write_subcommands dw cx c with Some rows => Some [mkSec s_commands rows] | None => None end
+            then match write_subcommands dw cx c with Some rows => Some [mkSec (sub_section_title c) rows] | None => None end
             else Some []) = Some s1 /\ secs_ok (cx_use_long cx) c s1).
   { destruct (has_visible_subcommands c).
     - destruct (write_subcommands_spec dw cx c (proj2 Hc)) as [rows [Hrows Hr]]. rewrite Hrows.
@@ -528,14 +683,24 @@ Qed.
 
 (** [write_help] is total on a built command, for every width, mode and display-width function *)
 Lemma write_help_spec c use_long w :
-  cmd_ok c -> exists s, write_help dw c use_long w = Some s /\ secs_ok use_long c (scr_sections s)
-                        /\ scr_about s = write_about use_long c.
+  cmd_ok c -> refs_ok c = true ->
+  exists s, write_help dw c use_long w = Some s /\ secs_ok use_long c (scr_sections s)
+            /\ scr_about s = write_about use_long c.
 Proof.
-  intros Hc. unfold write_help.
-  destruct (usage_pieces_some c) as [u Hu]. { intros a Ha. apply (proj1 Hc a Ha). }
+  intros Hc Hrefs. unfold write_help.
+  destruct (usage_pieces_some c) as [u Hu]. { intros a Ha. apply (proj1 Hc a Ha). } { exact Hrefs. }
   rewrite Hu.
   destruct (write_all_args_spec (mkCtx use_long (term_w_of w) (h_is_set hs_next_line c)) c Hc) as [secs [Hs Hok]].
   rewrite Hs. eexists. split; [reflexivity|]. split; [exact Hok|reflexivity].
+Qed.
+
+(** the sections of a rendered screen, whatever the usage line did *)
+Lemma write_help_secs c use_long w s :
+  cmd_ok c -> write_help dw c use_long w = Some s -> secs_ok use_long c (scr_sections s).
+Proof.
+  intros Hc H. unfold write_help in H. destruct (usage_pieces c) as [u|]; [|discriminate].
+  destruct (write_all_args_spec (mkCtx use_long (term_w_of w) (h_is_set hs_next_line c)) c Hc) as [secs [Hs Hok]].
+  rewrite Hs in H. inversion H; subst s. exact Hok.
 Qed.
 
 End P3.
@@ -826,7 +991,7 @@ Qed.
 Lemma lists_visible_sub cx c secs sc :
   NoDup (map sc_str (hc_subs c)) -> write_all_args dw cx c = Some secs ->
   In sc (hc_subs c) -> hc_hide sc = false -> hc_name sc <> s_help ->
-  exists sec r, In sec secs /\ s_title sec = s_commands /\ In r (s_rows sec) /\ r_id r = hc_name sc.
+  exists sec r, In sec secs /\ s_title sec = sub_section_title c /\ In r (s_rows sec) /\ r_id r = hc_name sc.
 Proof.
   intros Hnd H Hsc Hh Hn. unfold write_all_args in H.
   assert (Hv : has_visible_subcommands c = true).
@@ -839,7 +1004,7 @@ Proof.
   destruct (heading_sections dw cx c (custom_headings c)) as [s4|]; [|discriminate].
   inversion H; subst secs.
   destruct (write_subcommands_lists cx c rows sc Hnd Erows Hsc Hh) as [r [Hr Hid]].
-  exists (mkSec s_commands rows), r. split; [left; reflexivity|]. auto.
+  exists (mkSec (sub_section_title c) rows), r. split; [left; reflexivity|]. auto.
 Qed.
 
 End P4.
@@ -873,16 +1038,16 @@ Qed.
 
 (** C12_padding_safe: on a built command no subtraction underflows, no [expect] fails and no format
     width exceeds the [u16] limit -- for every width, both modes, every display-width function *)
-Theorem padding_safe c use_long w : cmd_ok dw c -> write_help dw c use_long w <> None.
-Proof. intros H. destruct (write_help_spec dw c use_long w H) as [s [E _]]. rewrite E. discriminate. Qed.
+Theorem padding_safe c use_long w : cmd_ok dw c -> refs_ok c = true -> write_help dw c use_long w <> None.
+Proof. intros H R. destruct (write_help_spec dw c use_long w H R) as [s [E _]]. rewrite E. discriminate. Qed.
 
 Theorem render_total c use_long w :
-  hc_built c = false -> spec_ok c -> widths_ok (h_build_self c) ->
+  hc_built c = false -> spec_ok c -> widths_ok (h_build_self c) -> refs_ok (h_build_self c) = true ->
   render_help dw c use_long w <> None /\ render_usage c <> None.
 Proof.
-  intros Hb Hs Hw. pose proof (h_build_self_args_ok c Hb Hs) as Ha. split.
-  - unfold render_help. apply padding_safe. apply cmd_ok_intro; assumption.
-  - unfold render_usage. destruct (usage_pieces_some _ Ha) as [u E]. rewrite E. discriminate.
+  intros Hb Hs Hw Hr. pose proof (h_build_self_args_ok c Hb Hs) as Ha. split.
+  - unfold render_help. apply padding_safe; [apply cmd_ok_intro; assumption|exact Hr].
+  - unfold render_usage. destruct (usage_pieces_some _ Ha Hr) as [u E]. rewrite E. discriminate.
 Qed.
 
 (** C12_padding_bounded: the padding of a row never exceeds a bound that does not mention the width *)
@@ -893,8 +1058,7 @@ Theorem padding_bounded c use_long w s sec r :
   cmd_ok dw c -> write_help dw c use_long w = Some s -> In sec (scr_sections s) -> In r (s_rows sec) ->
   r_pad r <= width_bound c + 6.
 Proof.
-  intros Hc E Hsec Hr. destruct (write_help_spec dw c use_long w Hc) as [s' [E' [Hok _]]].
-  rewrite E in E'. inversion E'; subst s'.
+  intros Hc E Hsec Hr. pose proof (write_help_secs dw c use_long w s Hc E) as Hok.
   destruct (fold_max_spec (fun x : N => x) (map (contrib dw) (hc_args c) ++ map (fun sc => dw (sc_str sc)) (hc_subs c)) 2)
     as [H2 [Hall _]]. fold (width_bound c) in H2, Hall.
   destruct (Hok sec r Hsec Hr) as [[a [_ [_ [_ [[b [Hb Hp]] _]]]]]|[sc [_ [_ [_ [[b [Hb Hp]] _]]]]]].
@@ -921,7 +1085,7 @@ Qed.
 Theorem lists_visible_subs c use_long w s sc :
   NoDup (map sc_str (hc_subs c)) -> write_help dw c use_long w = Some s ->
   In sc (hc_subs c) -> hc_hide sc = false -> hc_name sc <> s_help ->
-  exists sec r, In sec (scr_sections s) /\ s_title sec = s_commands /\ In r (s_rows sec) /\ r_id r = hc_name sc.
+  exists sec r, In sec (scr_sections s) /\ s_title sec = sub_section_title c /\ In r (s_rows sec) /\ r_id r = hc_name sc.
 Proof.
   intros Hnd E Hsc Hh Hn. unfold write_help in E.
   destruct (usage_pieces c); [|discriminate].
@@ -938,8 +1102,7 @@ Theorem hides_hidden_rows c use_long w s sec r :
              /\ forall p, In p (r_pvs r) -> exists pv, In pv (ha_pvs a) /\ pv_hide pv = false /\ pv_name pv = p)
   \/ (exists sc, In sc (hc_subs c) /\ hc_hide sc = false /\ r_id r = hc_name sc /\ r_pvs r = []).
 Proof.
-  intros Hc E Hsec Hr. destruct (write_help_spec dw c use_long w Hc) as [s' [E' [Hok _]]].
-  rewrite E in E'. inversion E'; subst s'.
+  intros Hc E Hsec Hr. pose proof (write_help_secs dw c use_long w s Hc E) as Hok.
   destruct (Hok sec r Hsec Hr) as [[a [H1 [H2 [H3 [_ H5]]]]]|[sc [H1 [H2 [H3 [_ H5]]]]]].
   - left. exists a. auto.
   - right. exists sc. auto.
@@ -958,25 +1121,29 @@ Proof.
   - subst. rewrite H2. destruct (ha_hide a); [reflexivity|]. cbn. rewrite andb_false_r. reflexivity.
 Qed.
 
-(** every usage piece comes from a required argument or a positional that is not hidden;
-    with distinct ids an optional hidden argument therefore contributes none *)
-Theorem usage_hides_hidden c items a :
-  NoDup (map ha_id (hc_args c)) -> args_ok c -> usage_arg_items c = Some items ->
-  In a (hc_args c) -> ha_hide a = true -> ha_required a = false -> ~ In (ha_id a) (map fst items).
+(** every usage piece comes from an argument among the requirements, from a positional that is not
+    hidden, or from a group among the requirements; with distinct ids an optional hidden argument that no
+    [requires] rule names, and whose id is not a group's, therefore contributes none *)
+Theorem usage_hides_hidden c fo items a :
+  NoDup (map ha_id (hc_args c)) -> args_ok c -> refs_ok c = true -> usage_arg_items c fo = Some items ->
+  In a (hc_args c) -> ha_hide a = true -> req_srcb c (ha_id a) = false -> find_group (pcmd_of c) (ha_id a) = None ->
+  ~ In (ha_id a) (map fst items).
 Proof.
-  intros Hnd Hok E Ha Hh Hr Hin.
-  destruct (usage_arg_items_spec c Hok) as [items' [E' Hsrc]]. rewrite E in E'. inversion E'; subst items'.
+  intros Hnd Hok Hrefs E Ha Hh Hr Hg Hin. apply req_srcb_false in Hr.
+  destruct (usage_arg_items_spec c fo Hok Hrefs) as [items' [E' Hsrc]]. rewrite E in E'. inversion E'; subst items'.
   apply in_map_iff in Hin. destruct Hin as [x [Ex Hx]].
-  destruct (Hsrc x Hx) as [b [Hb [Eid Hcase]]].
-  assert (b = a).
-  { clear - Hnd Ha Hb Eid Ex. rewrite Ex in Eid. induction (hc_args c) as [|y t IH]; [destruct Ha|].
-    cbn [map] in Hnd. inversion Hnd as [|? ? Hy Ht]; subst.
-    destruct Ha as [Ha|Ha], Hb as [Hb|Hb].
-    - congruence.
-    - subst y. exfalso. apply Hy. rewrite <- Eid. apply in_map. exact Hb.
-    - subst y. exfalso. apply Hy. rewrite Eid. apply in_map. exact Ha.
-    - apply IH; assumption. }
-  subst b. destruct Hcase as [Hc|[_ Hc]]; congruence.
+  destruct (Hsrc x Hx) as [[b [Hb [Eid [_ Hcase]]]]|[Hfg _]].
+  - assert (b = a).
+    { clear - Hnd Ha Hb Eid Ex. rewrite Ex in Eid. induction (hc_args c) as [|y t IH]; [destruct Ha|].
+      cbn [map] in Hnd. inversion Hnd as [|? ? Hy Ht]; subst.
+      destruct Ha as [Ha|Ha], Hb as [Hb|Hb].
+      - congruence.
+      - subst y. exfalso. apply Hy. rewrite <- Eid. apply in_map. exact Hb.
+      - subst y. exfalso. apply Hy. rewrite Eid. apply in_map. exact Ha.
+      - apply IH; assumption. }
+    subst b. destruct Hcase as [Hc|[_ Hc]]; [|congruence].
+    apply Hr. rewrite <- Ex. apply usage_reqs_src. exact Hc.
+  - rewrite Ex, Hg in Hfg. discriminate.
 Qed.
 
 (** C12_help_level: the help error of a path renders the level the path leads to *)
@@ -1041,6 +1208,9 @@ Definition ex_cmd : hcmd :=
       (harg_new [102] ASet) <| ha_required := true |> ]
     [ (hcmd_new [115]) <| hc_about := Some [115; 97] |>;
       (hcmd_new [116]) <| hc_hide := true |> ].
+
+Example ex_cmd_refs : refs_ok (h_build_self ex_cmd) = true.
+Proof. vm_compute. reflexivity. Qed.
 
 Example ex_cmd_hyps :
   hc_built ex_cmd = false /\ spec_ok ex_cmd /\ cmd_ok len (h_build_self ex_cmd)
